@@ -38,7 +38,7 @@ def encode(o, tree_types=TREE_TYPES, root=False):
     #     else:
         yield from (encode(value) for value in o.itermv())
     elif isinstance(o, MultiVector):
-        values = o._values.tobytes() if isinstance(o._values, np.ndarray) else o._values.copy()
+        values = o._values.astype(np.float64).tobytes() if isinstance(o._values, np.ndarray) else o._values.copy()
         if tuple(o._keys) != tuple(o.algebra.canon2bin.values()):
             # If not a full mv in canonical order, also pass the keys and let ganja figure it out.
             yield {'mv': values, 'keys': o._keys}
